@@ -36,10 +36,13 @@ fn setup(ctx: &mut Ctx) {
     ctx.floor("post-fault:answer-equals-fault-free", 2000);
     ctx.floor("post-fault:repeat-of-faulted-query-ok", 200);
     ctx.floor("multi-fault-schedules", 100);
+    ctx.floor("reader:short-reads", 50);
+    ctx.floor("reader:full-reads", 50);
+    ctx.floor("fault:mid-range(after-partial-delivery)", 200);
 }
 
 fn strata(t: Tier) -> Vec<Stratum> {
-    vec![st("single-fault-enumeration", scale(t, 192_000, 1_920_000, 2)), st("multi-fault-schedules", scale(t, 320_000, 3_200_000, 2))]
+    vec![st("single-fault-enumeration", scale(t, 120_000, 1_200_000, 2)), st("multi-fault-schedules", scale(t, 200_000, 2_000_000, 2))]
 }
 
 struct Run {
@@ -51,8 +54,8 @@ struct Run {
     kinds: Vec<bool>, // per I/O call: true = read
 }
 
-fn replay(data: &Rc<Vec<u8>>, hist: &[Query], faults: Vec<Fault>) -> Run {
-    let (reader, handle) = new_reader(data.clone(), Policy { faults, ..Default::default() }, 7);
+fn replay(data: &Rc<Vec<u8>>, hist: &[Query], faults: Vec<Fault>, max_chunk: usize) -> Run {
+    let (reader, handle) = new_reader(data.clone(), Policy { faults, max_chunk, ..Default::default() }, 7);
     let mut answers = Vec::with_capacity(hist.len());
     let stream = ElfStream::<AnyEndian, MonReader>::open_stream(reader);
     let open_ok = stream.is_ok();
@@ -158,7 +161,11 @@ fn make_case(ctx: &mut Ctx) -> Option<(Rc<Vec<u8>>, Vec<Query>, String)> {
 fn run(ctx: &mut Ctx, si: usize, _case: u64) {
     let Some((data, hist, what)) = make_case(ctx) else { return };
     ctx.set_input(&data);
-    let clean = replay(&data, &hist, vec![]);
+    // half of the histories run over a reader that delivers short reads, so that a fault can hit after part
+    // of a range has already been delivered
+    let chunk = if ctx.rng.bool() { 0 } else { [3usize, 16, 64][ctx.rng.usize_below(3)] };
+    ctx.count(if chunk == 0 { "reader:full-reads" } else { "reader:short-reads" });
+    let clean = replay(&data, &hist, vec![], chunk);
     if !clean.open_ok {
         ctx.inconclusive("unmutated generated object does not open as a stream".to_string());
         return;
@@ -171,14 +178,23 @@ fn run(ctx: &mut Ctx, si: usize, _case: u64) {
     match si {
         0 => {
             let mut all_fired = true;
-            for k in 0..n {
+            // exhaustive over the I/O call indices; very long short-read histories are sampled (and then not
+            // counted as exhaustively enumerated)
+            let indices: Vec<u32> = if n <= 300 {
+                (0..n).collect()
+            } else {
+                all_fired = false;
+                ctx.count("histories:fault-indices-sampled(N>300)");
+                (0..300).map(|_| ctx.rng.below(n as u64) as u32).collect()
+            };
+            for k in indices {
                 for kind in [FaultKind::Error, FaultKind::Eof] {
                     for permanent in [false, true] {
                         let f = Fault { at_call: k, kind, permanent };
                         ctx.count("faults-injected");
                         ctx.count(if kind == FaultKind::Error { "fault:error" } else { "fault:eof" });
                         ctx.count(if permanent { "fault:permanent" } else { "fault:transient" });
-                        let faulty = replay(&data, &hist, vec![f]);
+                        let faulty = replay(&data, &hist, vec![f], chunk);
                         if faulty.fired.is_empty() {
                             all_fired = false;
                             ctx.count("faults-not-reached");
@@ -186,6 +202,9 @@ fn run(ctx: &mut Ctx, si: usize, _case: u64) {
                         }
                         ctx.count("faults-fired");
                         let is_read = clean.kinds.get(k as usize).copied().unwrap_or(false);
+                        if is_read && k > 0 && clean.kinds.get(k as usize - 1).copied().unwrap_or(false) {
+                            ctx.count("fault:mid-range(after-partial-delivery)");
+                        }
                         ctx.count(if is_read { "fault:on-read" } else { "fault:on-seek" });
                         let desc = format!("{:?} fault at I/O call {k} ({}), {}", kind, if is_read { "read" } else { "seek" }, if permanent { "permanent" } else { "transient" });
                         if !judge(ctx, &what, &hist, &clean, &faulty, &desc) {
@@ -207,7 +226,7 @@ fn run(ctx: &mut Ctx, si: usize, _case: u64) {
                 ctx.count("multi-fault-schedules");
                 ctx.count_n("faults-injected", nf as u64);
                 let desc = format!("schedule {:?}", faults);
-                let faulty = replay(&data, &hist, faults);
+                let faulty = replay(&data, &hist, faults, chunk);
                 ctx.count_n("faults-fired", faulty.fired.len() as u64);
                 if faulty.fired.is_empty() {
                     continue;
